@@ -212,8 +212,29 @@ def gen_ops(rng, spec, n):
                 ops.append(("setranges", lo, hi, tight, clip)); cur_box = (lo, hi)
             else:
                 ops.append(("setranges", None, None, None, None)); cur_box = None
-        elif k < 0.97:
+        elif k < 0.96:
             ops.append(("settermination", gen_termination(rng, spec["solver"]) or ("never",)))
+        elif k < 0.975 and spec.get("monitor_ops"):
+            ops.append(("setstepmon", rng.random() < 0.2))
+        elif k < 0.985 and spec.get("monitor_ops"):
+            ops.append(("setevalmon", rng.random() < 0.3))
         else:
             ops.append(("solve",))
     return ops
+
+
+def gen_pushing_constraints(rng, dim, box):
+    """a deterministic constraints function that can move an in-box point OUT of the box (C02 must hold anyway)"""
+    lo, hi = box
+    i = rng.randrange(dim)
+    span = (hi[i] - lo[i]) if (math.isfinite(hi[i]) and math.isfinite(lo[i])) else 4.0
+    kind = rng.choice(["shift", "tie", "scale", "pinout"])
+    if kind == "shift":
+        return ("pin", i, ("+", ("x", i), ("c", rng.choice([-1.0, 1.0]) * (0.5 * span + 0.25))))
+    if kind == "tie" and dim >= 2:
+        j = (i + 1) % dim
+        return ("tie", i, j, rng.choice([-1.0, 1.0]) * (span + 1.0))
+    if kind == "scale":
+        return ("pin", i, ("*", ("x", i), ("c", rng.choice([2.0, -1.5, 3.0]))))
+    base = hi[i] if math.isfinite(hi[i]) else (lo[i] if math.isfinite(lo[i]) else 0.0)
+    return ("pin", i, ("c", base + 1.5))
